@@ -537,6 +537,7 @@ class Recorder final : public StepInterface
     std::vector<StepRec> steps;
     long call = 0;
     bool has_nan = false;
+    bool dump_ = std::getenv("VERIF_SIMDUMP") != nullptr;  // debug aid
 
     Filters filters() const final { return {}; }
     StepSelection selection() const final { return StepSelection::all(); }
@@ -577,6 +578,20 @@ class Recorder final : public StepInterface
             }
             if (std::isnan(r.length) || std::isnan(r.edep))
                 has_nan = true;
+            if (dump_)
+                std::fprintf(stderr,
+                             "STEP call %ld slot %d ev %d trk %u par %d n %u pdg-id %d "
+                             "act %d len %.17g edep %.17g | pre vol %d E %.17g pos "
+                             "(%.17g, %.17g, %.17g) dir (%.9g, %.9g, %.9g) | post vol "
+                             "%d E %.17g pos (%.17g, %.17g, %.17g) dir (%.9g, %.9g, "
+                             "%.9g)\n",
+                             r.call, r.slot, r.event, r.track, r.parent,
+                             r.step_count, r.particle, r.action, r.length, r.edep,
+                             r.pre.volume, r.pre.energy, r.pre.pos[0], r.pre.pos[1],
+                             r.pre.pos[2], r.pre.dir[0], r.pre.dir[1], r.pre.dir[2],
+                             r.post.volume, r.post.energy, r.post.pos[0],
+                             r.post.pos[1], r.post.pos[2], r.post.dir[0],
+                             r.post.dir[1], r.post.dir[2]);
             steps.push_back(r);
         }
     }
@@ -1045,12 +1060,17 @@ gen_spec(Choices& c, CaseLog& log, GeoFixture& fix, GenOptions const& opt)
         if (!tv.failed() && !tv.is_outside())
         {
             auto pr = tv.find_next_step();
+            // (a limiter far below the geometry scale only makes the event
+            // take millions of steps)
             if (pr.boundary && pr.distance > 0 && std::isfinite(pr.distance))
             {
                 int div = int(c.int_in(1, 3));
-                s.fixed_step_limiter = pr.distance / (div == 3 ? 4 : div);
-                log.label("step-limiter-boundary-tie");
-                log.mix(s.fixed_step_limiter);
+                if (pr.distance > 4e-3 * fix.scale)
+                {
+                    s.fixed_step_limiter = pr.distance / (div == 3 ? 4 : div);
+                    log.label("step-limiter-boundary-tie");
+                    log.mix(s.fixed_step_limiter);
+                }
             }
         }
     }
